@@ -14,8 +14,45 @@ let range four l lo n =
   for k = 0 to n - 1 do
     Buffer.add_string b (four l (z_of_zarith (Z.add lo (Z.of_int k)))); Buffer.add_char b ';'
   done; Buffer.contents b
+(* hist F L op...: the extracted L1 model (SegModel.step) over the extracted GENERATED sizing functions *)
+let hist f l ops =
+  let l = z_of_string l in
+  let (seg, idx) = if f = "sq" then (Gen_SegSqrt.coq_GetSegItemIndexes l, Gen_SegSqrt.coq_GetIndex l)
+                   else (Gen_SegCnst.coq_GetSegItemIndexes l, Gen_SegCnst.coq_GetIndex l) in
+  let st = ref SegModel.empty in
+  let b = Buffer.create 1024 in
+  let bad = ref false in
+  let apply o = if not !bad then (match SegModel.step seg idx !st o with Some s -> st := s | None -> bad := true) in
+  List.iter (fun tok ->
+    if not !bad then begin
+      let c = tok.[0] in
+      let n = if String.length tok > 1 then String.sub tok 1 (String.length tok - 1) else "0" in
+      let zn = z_of_string n in
+      let cnt () = zarith_of_z (!st).SegModel.count in
+      (match c with
+       | 'a' -> for _ = 1 to int_of_string n do apply SegModel.AddBack done
+       | 'r' -> apply (SegModel.Reserve zn)
+       | 's' -> apply (SegModel.SetCount zn)
+       | 'k' -> apply SegModel.ShrinkFit
+       | 'K' -> apply (SegModel.ShrinkTo zn)
+       | 'b' -> apply (SegModel.RemoveBack zn)
+       | 'c' -> apply (SegModel.Clear false)
+       | 'C' -> apply (SegModel.Clear true)
+       | 'i' -> if Z.leq (Z.of_string n) (cnt ()) then apply SegModel.Insert
+       | 'd' -> if Z.lt (Z.of_string n) (cnt ()) then apply SegModel.Remove
+       | 'n' -> apply SegModel.AddBackNogrow
+       | _ -> bad := true);
+      if !bad then Buffer.add_string b "MODEL-ASSERT" else begin
+        let s = !st in
+        let top = match List.rev s.SegModel.segs with [] -> "-1" | x :: _ -> string_of_z x in
+        Buffer.add_string b (Printf.sprintf "%s/%s/%s/%s " (string_of_z s.SegModel.count) (string_of_z (SegModel.len s))
+                               (string_of_z (SegModel.capacity idx s)) top)
+      end
+    end) ops;
+  Buffer.contents b
 let () = iter_lines (fun line ->
   match words line with
+  | "hist" :: f :: l :: ops -> print_endline (hist f l ops)
   | ["lg64"; v] -> print_endline (string_of_z (Gen_Log2_64.coq_Log2 (z_of_string v)))
   | ["lg32"; v] -> print_endline (string_of_z (Gen_Log2_32.coq_Log2 (z_of_string v)))
   | ["sq"; l; i] -> print_endline (four_sq (z_of_string l) (z_of_string i))
